@@ -37,7 +37,7 @@ impl DiagnosticAction {
     }
 
     pub fn is_match(&self, is_disable: bool, range: &TextRange, code: &DiagnosticCode) -> bool {
-        if self.range.intersect(*range).is_none() {
+        if !scope_covers(self.range, *range) {
             return false;
         }
 
@@ -47,6 +47,17 @@ impl DiagnosticAction {
             (DiagnosticActionKind::DisableAll, true) => true,
             _ => false,
         }
+    }
+}
+
+/// Whether `range` lies (partly) inside the half-open `scope`. Ranges that merely touch the scope
+/// (a diagnostic starting exactly where the scope ends, or ending where it starts) are outside;
+/// an empty `range` is inside when its position is.
+fn scope_covers(scope: TextRange, range: TextRange) -> bool {
+    if range.is_empty() {
+        scope.start() <= range.start() && range.start() < scope.end()
+    } else {
+        range.start() < scope.end() && scope.start() < range.end()
     }
 }
 
